@@ -247,7 +247,11 @@ def corrupt_call(call, c, rnd):
     elif k in ("remove_gate", "mark_as_output"):
         call["label"] = missing
     elif k in ("set_outputs", "order_outputs", "order_inputs", "set_inputs"):
-        call["labels"] = list(call["labels"]) + [missing]
+        non_inputs = [l for l in labs if c.gates[l].gate_type != G.INPUT]
+        if k in ("set_inputs", "order_inputs") and non_inputs and rnd.random() < 0.5:
+            call["labels"] = list(call["labels"]) + [rnd.choice(non_inputs)]  # a gate that exists but is no input
+        else:
+            call["labels"] = list(call["labels"]) + [missing]
     elif k == "add_inputs" and labs:
         call["labels"] = list(call["labels"]) + [rnd.choice(labs)]
     elif k == "replace_inputs" and labs:
